@@ -71,6 +71,9 @@ pub enum Action {
     Fork { src: usize, back: u64, n: u64 },
     /// like `Fork`, but the new branch is not made heavier than its source (nobody follows it)
     SideFork { src: usize, back: u64, n: u64 },
+    /// an attacker's branch: like `Fork`, but its last `forged` blocks carry inconsistent epoch /
+    /// difficulty fields of kind `kind` (hash, chain root and dummy PoW stay self-consistent)
+    ForgeFork { src: usize, back: u64, n: u64, forged: u64, kind: u8, salt: u64 },
     /// peer starts following `branch` (its view jumps to tip - lag)
     SwitchBranch { peer: usize, branch: usize },
     Connect { peer: usize },
